@@ -2571,14 +2571,17 @@ RULE = ("op=run: one case = (branch list, flow, copy_buf) run under EVERY bufsiz
         "Non-trivial: >= 2 branches and a non-empty output (run), a non-empty result or an exception (others).")
 LEVEL_TEXT = ("Lean 4 theorems about a transcribed model of Split.run (block loop, index loop with in-place deletion, "
               "final pass), Split's common-type methods, _get_seq_with_type and Zip, for ALL branch lists (any "
-              "length, any mix of the four kinds, arbitrary stateful branch methods), all flows, every bufsize in N+ or "
-              "None and both copy_buf: the trace of Split.run equals the documented schedule (block by block, branch by "
+              "length, any mix of the four kinds, arbitrary stateful branch methods), all finite flows, every bufsize in N+ "
+              "or None (copy_buf is not verified in Lean: copies are identities in the value model): the trace of Split.run equals the documented schedule (block by block, branch by "
               "branch, each branch's contribution a function of that branch and the blocks alone), with per-kind "
-              "closed forms, LenaStopFill finalise-once-and-drop, exactly-once invocation on an empty flow, bufsize "
+              "closed forms (whole life of a branch, and block by block: blockForm / finalForm, independent of the loop "
+              "body), LenaStopFill finalise-once-and-drop, exactly-once invocation on an empty flow, bufsize "
               "independence for fill/compute and streaming branches, every branch given a prefix of the flow, identity "
-              "of the empty Split, common-type fill/compute, fill/request and __call__ (also nested in another Split), "
+              "of the empty Split, common-type __call__ (full), fill/compute and fill/request also nested in another Split (PARTIAL: no branch "
+              "signals LenaStopFill; the unrestricted statement is proved false), the Cache rule of __init__, "
               "tuple conversions, the objects left in self._seqs (each determined by its own branch; running a Split "
-              "twice), an exception of a branch cutting the schedule without changing what precedes it, Zip's i-th "
+              "twice), an exception of a branch cutting the schedule right after the raising call without changing what precedes "
+              "it (prefix + cut theorems), Zip's i-th "
               "tuples and losslessness on values with context. The model is tied to /repo by a correspondence check on "
               "event traces (outputs, per-branch invocation logs, per-branch interleaved traces, element states) that "
               "enumerates the four kinds x every bufsize x both copy_buf x every LenaStopFill index for branch lists "
@@ -2586,8 +2589,8 @@ LEVEL_TEXT = ("Lean 4 theorems about a transcribed model of Split.run (block loo
               "a reference-schedule oracle run on fresh branch objects.")
 LEVEL_NOTE = ("Trusted: Lean kernel (+ propext, Classical.choice, Quot.sound), the hand transcription validated by the "
               "correspondence run, the instrumented harness elements and their Lean counterparts, the JSON protocol. "
-              "Modelled, not verified: copy.deepcopy as value identity and branches without shared objects (aliasing: "
-              "C04), generators consumed to the end (laziness: C02), Zip's context algebra taken from C07, static "
+              "NOT verified here: copy_buf / deepcopy (value identity in the model; value-level consequences checked by the "
+              "oracle-only op realfc; identities: C04), branches without shared objects, generators consumed to the end (laziness: C02), Zip's context algebra taken from C07, static "
               "context / repr / equality of LenaSplit left out.")
 TECHNIQUE = "Lean 4 proof over hand-written model + correspondence check (event traces) + reference-schedule oracle"
 DESIGN_REF = "DESIGN.md section 3, C03"
